@@ -124,9 +124,15 @@ def run(ctx):
                     else:
                         ctx.count("harness/reference-did-not-accept")
                     continue
-                for _ in range(12):
+                for j in range(12):
                     env = {n: rnd.choice(SPLITTER_VALUES) for n in names}
+                    if j == 0:
+                        env = {n: "" for n in names}  # with no / empty salt the key is the empty string: still position md5("")
+                    elif j == 1:
+                        env = {n: rnd.choice([0, False, None, 0.0, "0"]) for n in names}
                     check(ctx, im, st[1], text, c[1], env, "headers")
+                    if j == 0:
+                        check(ctx, im, st[1], text, c[1], env, "headers")  # and again: must not be a random draw
                 ctx.seen("salts", repr(salt))
     ctx.sample(dict(layer="headers", text=text, env=env))
     # golden ids through whole programs (three key shapes)
